@@ -13,7 +13,7 @@ CHECKS = {
              "removal loop) and JsonHistoryGC.files (locked filter, stale-lock unlock, ordering) are executed symbolically over "
              "arbitrary file collections (unbounded integer timestamps, command counts, byte sizes, limits, clock, boot time) and "
              "compared with a 15-line reference; every obligation's path tree is exhausted, so the verdict covers every input "
-             "within the bound on the number of files.",
+             "within the bound on the number of files. A readable history file without the ts key is a third kind of corrupt member.",
         note="Bounds: <=4 files for selectors, <=3 for run(), <=2 for files()/end-to-end (quick); 6/6/3 (thorough). Trusted: CrossHair's "
              "int/list/tuple models and z3; LazyJSON, os.remove, clock and boot time are stubs with the contracts listed in the evidence "
              "file. SQLite backend and float timestamps are outside the claim.",
@@ -38,7 +38,7 @@ CHECKS = {
              "(depth 1-2 quick, 3 thorough) with every swap/overlay/mask/body-operation/exit-kind combination (exit by return, Exception, "
              "BaseException) must leave every read path ([], in, get, iteration, detype(), detype_all()) as a 20-line layer model "
              "predicts; a two-thread obligation interleaves a reader thread (independent or inheriting at spawn) with a scope in another "
-             "thread at API-call granularity. The solver case-splits the finite-domain choices and decides each path; all trees exhaust.",
+             "thread at API-call granularity. The solver case-splits the finite-domain choices and decides each path; all trees exhaust. One scope is also entered through every calling form of swap (mapping, keyword, both for the same key) on an unregistered variable and on each member of a real sync= pair, comparing the partner's read paths too.",
         note="Finite-domain claim: the case split is over class representatives (values are opaque to the code). Thread obligation: "
              "the thread-local storage is replaced by per-logical-thread dicts, interleaving granularity is one Env call. "
              "$UPDATE_OS_ENVIRON mirroring and real preemption inside a call are outside. Two defects found here were repaired (fix: commits).",
@@ -73,7 +73,7 @@ CHECKS = {
              "plus a non-alias, so self loops, 2-/3-cycles, chains and diamonds all occur; the invoked name, own and user arguments vary. "
              "The result must equal an independently written iterative expander (each alias at most once, inner alias arguments before "
              "outer before user arguments, decorators in encounter order, last decorator wins), be identical for both definition orders, "
-             "and never hit RecursionError; $__ALIAS_STACK blocks re-expansion.",
+             "and never hit RecursionError; $__ALIAS_STACK blocks re-expansion. Each resolution is asked twice and must give the same answer (the table is only read).",
         note="Finite-domain claim over the stated graph family (2-3 aliases quick, 3-4 thorough); argument tokens are opaque markers. "
              "String aliases / ExecAlias classification (regex, lexer) are outside; expand_path is the identity and no PATH search is done.",
         ref="DESIGN.md 4 C15",
@@ -85,7 +85,7 @@ CHECKS = {
              "file in the cwd, $PATH values with missing, duplicate, symlinked, relative and empty entries, and then histories of "
              "create / delete / chmod / replace / $PATH reverse, append, insert, pop / symlink re-pointing with all views re-checked "
              "after every step against a POSIX search reference computed on the current model state. The solver case-splits the "
-             "finite-domain choices; every class is then executed on the real code.",
+             "finite-domain choices; every class is then executed on the real code. Directory mtimes of the model are epoch-sized floats one 4 ms tick apart, so tolerant or rounded comparisons cannot pass for equality.",
         note="Bounds: $PATH length <=3, histories <=2 steps (quick) / 3 (thorough), one name in histories. The os module and pathlib.Path "
              "seen by the two modules are a model FS whose contract (directory mtime changes iff an entry appears/disappears) is listed "
              "in evidence. PATHEXT, stable-directory caching and what execvp really runs are outside. One defect repaired, one known finding listed.",
@@ -97,7 +97,7 @@ CHECKS = {
              "system with inodes: the step at which the process is killed is case-split, the number of buffered characters that had "
              "reached the disk is an unbounded symbolic integer decided by z3, and separately every single file-system call is made to "
              "fail (OSError, or a short os.write). Afterwards every history file must be exactly its complete previous or complete new "
-             "version (hence loadable), never truncated or missing.",
+             "version (hence loadable), never truncated or missing. Opening an existing file for reading is one of the fallible calls.",
         note="Bounds: the concrete initial files built at start-up (1-2 files, 1-3 commands), <=14 file-system steps per operation. The "
              "model's contract (truncate at open, buffered writes durable as any prefix until close returns, atomic replace, no fsync "
              "modelling) is listed in evidence. SQLite/WAL and signal-driven flush are outside. One defect repaired.",
@@ -122,7 +122,7 @@ CHECKS = {
              "every operation; (2) commands containing multi-byte UTF-8, quotes, backslashes, newlines, U+2028 and control characters "
              "written through the real encoder into UTF-8 bytes and every value read back through the embedded index by byte offset; "
              "(3) the index offset arithmetic of lazyjson executed symbolically with every leaf's rendering a free symbolic string, so "
-             "offsets/sizes are shown to address exactly the rendering for all rendering lengths in the bound.",
+             "offsets/sizes are shown to address exactly the rendering for all rendering lengths in the bound. Histories include `clear`.",
         note="Files are in-memory UTF-8 byte buffers behind a real TextIOWrapper; flusher threads run synchronously in creation order "
              "(the ticket queue that enforces this order is not verified). SQLite and real thread timing are outside.",
         ref="DESIGN.md 4 C12",
@@ -134,7 +134,7 @@ CHECKS = {
              "path entries in every position; (c) histories of 15 kinds of operations (equal-comparing typed/untyped assignments, list "
              "assignment, in-place mutation through a read and through a held reference, delete, swap / mask / overlay) on the real Env "
              "with the mapping a child would receive compared, after every step, with a recomputation from scratch and with the stored "
-             "typed values. The solver case-splits the finite-domain choices; each class runs on the real code.",
+             "typed values. The solver case-splits the finite-domain choices; each class runs on the real code. The operation alphabet includes two nested overlays naming the same variables, an overlay mask, a caller editing the mapping it was handed, and the first read of a computed default.",
         note="Pools, not all values, for non-integer types (floats are IEEE at the C boundary; CrossHair reals are not). LS_COLORS, "
              "colour dicts, VarPattern, locale and prompt-toolkit setters and the real os.environ mirror are outside. Four known findings "
              "are listed in known_findings.jsonl.",
@@ -147,7 +147,7 @@ CHECKS = {
              "and bounded model checking of SubprocSpec.build / cmds_to_specs over every single redirect, every pair of redirects on one "
              "stage and every redirect on every stage of 2-3 stage pipelines (with and without trailing &) compares the resulting "
              "stdin/stdout/stderr slots, file modes, shared opens, pipe ends, sentinels and errors with a decoder written from the "
-             "documentation: all spellings of an operator are equivalent, conflicts and pipe-redirects without a pipe are errors.",
+             "documentation: all spellings of an operator are equivalent, conflicts and pipe-redirects without a pipe are errors. Pipelines of 2..4 stages where one stage sends stdout to a file and stderr into the pipe (every spelling pair) must wire every other stage's stdout to its pipe.",
         note="safe_open and PipeChannel are models (no fds are created); the last stage's capture plumbing (_update_last_spec) and the "
              "alias-side handle resolution are not covered; bytes actually delivered and the grammar producing the tuples are outside.",
         ref="DESIGN.md 4 C07",
@@ -160,7 +160,7 @@ CHECKS = {
              "owner allocating pipes must neither close a number twice nor touch a foreign descriptor nor leak; pipelines of 1-3 stages "
              "under four capture kinds with a fault at any stage (conflicting redirects, pipe-redirect without pipe, unthreadable alias, "
              "spec construction raising, process start raising OSError or KeyboardInterrupt) must leave the fd table as before; and a "
-             "failed spawn of a captured command (7 exception classes) must restore the four signal handlers.",
+             "failed spawn of a captured command (7 exception classes) must restore the four signal handlers. After pipelines of 1..3 callable-alias or process stages, run through the real CommandPipeline end path with the real SIGINT save/restore methods of ProcProxyThread on model stage objects, a Ctrl-C must reach the shell's own handler.",
         note="Partial claim: children, helper threads, terminal ownership, sys.std*, cwd and handlers of successfully started stages are "
              "OS state outside this model. Processes are model objects; descriptors freed only by garbage collection count as leaked. "
              "One defect repaired.",
@@ -172,7 +172,7 @@ CHECKS = {
              "code points, 1-3 characters), lists/tuples of them, ints, bytes and callables through the real list_of_strs_or_callables, "
              "ensure_str_or_callable, outer-product and expand_path code; the argv handed to run_subproc must be verbatim, one argument "
              "per string/element, in position, and glob must never be called on injected content. Finite pools cover the documented "
-             "$VAR / ~ expansion of 27 literal shapes (raw and non-raw), @$() re-splitting of 11 outputs and macro ! bodies.",
+             "$VAR / ~ expansion of 27 literal shapes (raw and non-raw), @$() re-splitting of 11 outputs and macro ! bodies. At the hand-off stage SubprocSpec.build must keep an argument word equal to any name of the session's real alias table (decorator aliases included) or an operator word, at every position, for a callable alias and for a program.",
         note="Partial claim (runtime hand-off): lexing/quoting of literal text and the alias-thread vs Popen delivery paths are outside. "
              "run_subproc and XSH.glob are recorders. One known finding (concatenated injection) is listed.",
         ref="DESIGN.md 4 C04",
@@ -185,7 +185,7 @@ CHECKS = {
              "use statements; the solver case-splits the form and the full aliasing pattern of five names (session-bound, unbound, "
              "builtin, two fresh). Whenever CPython evaluates the use statement without NameError, xonsh must leave that statement's "
              "tree exactly as CPython parses it; after a same-scope del of a once-bound name the line must be wrapped. A second obligation "
-             "checks that inputs rejected with SyntaxError ran nothing.",
+             "checks that inputs rejected with SyntaxError ran nothing. A session obligation drives two successive inputs through Execer.compile with a name bound in the session's builtins, globals or locals before, between, or removed between them: the second input stays Python exactly when the name is bound at that moment.",
         note="Oracle direction only bound => untouched (xonsh judges binding lexically). Skeletons whose phase-1 parse already differs "
              "from CPython are dropped (C01's concern; none at present). The text of an actual wrap is C03's subject. Two known findings "
              "(walrus statement, match capture) are listed.",
@@ -198,7 +198,7 @@ CHECKS = {
              "reports a fresh location, so only the retry counter can stop the loop: it must return or raise SyntaxError within the cap, "
              "never another exception. (b) get_logical_line / strip_continuation_comments / _ends_with_line_continuation over symbolic "
              "short lines of quotes, backslashes, '#', ';'. (c) bare == explicit: a generated family of command segments alone or chained "
-             "by && || and or, in six statement positions, must run exactly the commands of the hand-wrapped ![...] program.",
+             "by && || and or, in six statement positions, must run exactly the commands of the hand-wrapped ![...] program. Further segments end in an operator character, hold a break word inside a substitution or start with a $VAR path word; one-line chains of 3..16 commands are compared as well.",
         note="Partial claim: (a) is for six seed inputs and two symbolic answers; (c) is a finite generated family, not the whole "
              "subprocess grammar (that needs the lexer and LALR parser inside the solver - same wall as C01). Three known findings listed. "
              "A few (a) partitions do not exhaust within the quick budget and are reported inconclusive.",
@@ -210,7 +210,7 @@ CHECKS = {
              "of up to 3+2 symbols over {a, space, tab, backslash, quote} in three syntactic positions, every ordered pair of 43 statements "
              "(Python, subprocess lines, comments, continuations, tab/2/4/8-space indentation, f-strings) under three separators, go through "
              "format_source and are parsed before and after with Execer.parse: same tree, second pass a no-op, exactly one final newline, "
-             "FormatError instead of rewriting; the CLI rewrites ASCII and multi-byte files in place to exactly format_source's output.",
+             "FormatError instead of rewriting; the CLI rewrites ASCII and multi-byte files in place to exactly format_source's output. The statement pool holds function and alias macros; fifteen further single statements (operator characters inside subprocess words, f-string specs, nested and block macros, a continued command) are formatted alone.",
         note="Partial claim: generated families, not all programs (whole-program equivalence on symbolic text needs tokenizer and parser "
              "inside the solver - same wall as C01). One known finding (the defect the property text names) is listed.",
         ref="DESIGN.md 4 C17",
@@ -222,7 +222,7 @@ CHECKS = {
              "Execer as `cmd <text>` with a recording run_subproc and must deliver exactly [name]; the completion-context analyser is "
              "run on every command line of up to 3 (quick) / 4 (thorough) symbols at every cursor position and on lines ending in blanks "
              "after an unclosed quote: no exception, reported prefix and suffix equal the text around the cursor. The solver case-splits "
-             "the finite-domain choices; each class runs on the real code.",
+             "the finite-domain choices; each class runs on the real code. A sibling candidate that needs a raw string is quoted together with the name and each must still read back as its own file; the analyser alphabet has backslash and newline and is also used without a leading command word.",
         note="Finite-domain claim over class representatives. The bash-completion bridge and Completer.complete_line splicing are "
              "outside. Three known findings (two of them named in the property text) are listed.",
         ref="DESIGN.md 4 C18",
